@@ -14,7 +14,7 @@ import ast
 import pickletools
 from typing import Dict, List, Optional, Set, Tuple
 
-from ..minieval import Evaluator, Unsupported
+from ..minieval import _MISSING, Evaluator, PyRaise, Record, Unsupported
 from ..model import ClassInfo, FuncInfo, Repo, dotted, load_repo, opcode_registry
 from ..report import AnalysisError, Report
 from ..util import body_walk, src
@@ -463,8 +463,35 @@ def check_length_units(repo: Repo, rep: Report):
     (by delegating to DynamicLength.validate, which measures len(cls(obj).encode_body()))."""
     dl = repo.cls("fickling.fickle.DynamicLength")
     base_v = dl.method("validate")
-    if base_v is None or "encode_body()" not in ast.unparse(base_v.node):
-        raise AnalysisError("DynamicLength.validate no longer measures len(cls(obj).encode_body())")
+    if base_v is None:
+        raise AnalysisError("DynamicLength.validate not found")
+    # what does the base validator measure?  the quantity compared with min_value/max_value
+    bp = base_v.params()
+    objp = bp[1] if len(bp) > 1 else None
+    binds = {t.id: n.value for n in body_walk(base_v.node) if isinstance(n, ast.Assign) for t in n.targets if isinstance(t, ast.Name)}
+
+    def resolve(e, depth=0):
+        while isinstance(e, ast.Name) and e.id in binds and depth < 5:
+            e = binds[e.id]
+            depth += 1
+        return e
+
+    measured = None
+    for n in body_walk(base_v.node):
+        if isinstance(n, ast.Compare) and any((dotted(x) or "").endswith(("min_value", "max_value")) for x in [n.left] + n.comparators):
+            for x in [n.left] + n.comparators:
+                r = resolve(x)
+                if isinstance(r, ast.Call) and dotted(r.func) == "len" and r.args:
+                    a = resolve(r.args[0])
+                    if isinstance(a, ast.Call) and isinstance(a.func, ast.Attribute) and a.func.attr == "encode_body":
+                        measured = measured or "encoded-body"
+                    elif isinstance(a, ast.Name) and a.id == objp:
+                        measured = "raw-len"
+                    else:
+                        measured = measured or f"other:{src(a)}"
+    if measured is None or measured.startswith("other:"):
+        raise AnalysisError(f"DynamicLength.validate: the quantity compared with min_value/max_value is not understood ({measured})")
+    raw_len = measured == "raw-len"
     for c, pr in constant_registry(repo):
         if not repo.is_subclass(c, dl.qualname):
             continue
@@ -473,6 +500,7 @@ def check_length_units(repo: Repo, rep: Report):
         cur_owner = None
         f = v
         depth = 0
+        kind = None  # what reaches the base validator: 'bytes' | 'str' | None (unknown)
         while f is not None and depth < 6:
             if f.cls is dl:
                 chain_ok = True
@@ -481,6 +509,19 @@ def check_length_units(repo: Repo, rep: Report):
             deleg = [r for r in rets if isinstance(r, ast.Call) and isinstance(r.func, ast.Attribute) and r.func.attr == "validate" and isinstance(r.func.value, ast.Call) and dotted(r.func.value.func) == "super"]
             if not rets or len(deleg) != len(rets):
                 break
+            pn = f.params()[1] if len(f.params()) > 1 else None
+            for n in body_walk(f.node):
+                if isinstance(n, ast.Call) and dotted(n.func) == "isinstance" and len(n.args) == 2 and dotted(n.args[0]) == pn and kind is None:
+                    tn = src(n.args[1])
+                    kind = "str" if tn == "str" else ("bytes" if tn in ("bytes", "bytearray", "(bytes, bytearray)") else None)
+            for r in deleg:
+                a = r.args[0] if r.args else None
+                if isinstance(a, ast.Call) and isinstance(a.func, ast.Attribute) and a.func.attr == "encode":
+                    kind = "bytes"
+                elif isinstance(a, ast.Call) and dotted(a.func) in ("bytes", "bytearray"):
+                    kind = "bytes"
+                elif not (isinstance(a, ast.Name) and a.id == pn):
+                    kind = None
             # next validate in the MRO after f.cls
             mro = repo.mro_classes(c)
             nxt = None
@@ -490,39 +531,130 @@ def check_length_units(repo: Repo, rep: Report):
                     break
             f = nxt
             depth += 1
-        if chain_ok:
-            rep.ok("C15.length-units", c.qualname + ".validate", "bounds the byte length of the encoded body (delegates to DynamicLength.validate on every accepting path)", f"{c.module.relpath}:{c.node.lineno}")
+        if chain_ok and raw_len and kind != "bytes":
+            if kind is None:
+                raise AnalysisError(f"{c.qualname}.validate: DynamicLength.validate measures len(obj) and the kind of value {c.name} passes to it is not understood")
+            rep.bad("C15.length-units", c.qualname + ".validate", "length-in-characters", f"DynamicLength.validate bounds len(obj) and {c.name}.validate hands it the text itself, so the {fold_attr(repo, c, 'length_bytes')}-byte length prefix is chosen by the number of characters: text whose UTF-8 encoding is longer than its character count is accepted by ConstantOpcode.new for this class and fails (or is cut) when the pickle is serialised", c.module.relpath, c.node.lineno)
+        elif chain_ok:
+            rep.ok("C15.length-units", c.qualname + ".validate", "bounds the byte length of the encoded body (delegates to DynamicLength.validate on every accepting path)" if not raw_len else "hands DynamicLength.validate the encoded bytes, whose len() is the body length", f"{c.module.relpath}:{c.node.lineno}")
         else:
             rep.bad("C15.length-units", c.qualname + ".validate", "length-not-of-encoded-body", f"{c.name}.validate ({v.qualname}) accepts a value without bounding the byte length of what encode_body writes (it does not delegate to DynamicLength.validate on every accepting path): a value whose encoding exceeds the {fold_attr(repo, c, 'length_bytes')}-byte length prefix is accepted by ConstantOpcode.new and only fails later, while the pickle is being serialised", c.module.relpath, c.node.lineno)
 
 
+# Character classes of the raw-unicode-escape reader (what the UNICODE opcode's argument is decoded with, up to the next
+# newline): one representative per class; the encoder touches characters only through comparisons with constants and
+# fixed-width formatting, so a representative stands for its class.  The constants the encoder itself compares with are
+# added (with both neighbours) when the rule runs.
+TEXT_CLASSES = [
+    ("printable-ascii", "Az09 ~'\""), ("backslash", "a\\b"), ("backslash-u-literal", "\\u0041"), ("backslash-n-literal", "a\\nb"),
+    ("newline", "a\nb"), ("carriage-return", "a\rb"), ("nul", "a\x00b"), ("ctrl-z", "\x1a"), ("control", "\x01\x1f"), ("del", "\x7f"),
+    ("latin1-0x80", "\x80"), ("latin1", "\xe9\xff"), ("bmp", "\u0100\u20ac\uffff"), ("astral", "\U00010000\U0001f600\U0010ffff"), ("empty", ""),
+]
+
+
 def check_text_escape(repo: Repo, rep: Report):
-    """UNICODE's text encoder must escape code points the way the raw-unicode-escape codec decodes them."""
-    f = repo.lookup("fickling.fickle.raw_unicode_escape")
-    if not isinstance(f, FuncInfo):
-        rep.ok("C15.text-escape", "fickling.fickle.raw_unicode_escape", "helper absent", "", nontrivial=False)
+    """UNICODE's text encoder, interpreted (sa/minieval) over one representative per character class of the
+    raw-unicode-escape reader: the bytes it writes must end with the line terminator, contain no other newline, and
+    decode (stdlib codec = the reader's specification) to exactly the text handed in - or the build must refuse."""
+    uc = repo.classes.get("fickling.fickle.Unicode")
+    if uc is None:
+        rep.ok("C15.text-escape", "fickling.fickle.Unicode", "class absent", "", nontrivial=False)
         return
-    loops = [n for n in body_walk(f.node) if isinstance(n, ast.For)]
-    param = f.params()[0] if f.params() else None
-    ann = f.node.args.args[0].annotation if f.node.args.args else None
-    bytewise = bool(loops) and dotted(loops[0].iter) == param and ann is not None and src(ann) in ("bytes", "ByteString", "bytearray")
-    esc = [n for n in body_walk(f.node) if isinstance(n, ast.JoinedStr) and "\\u" in ast.unparse(n)]
-    users = []
+    eb = repo.find_method(uc, "encode_body")
+    va = repo.find_method(uc, "validate")
+    if eb is None or va is None or eb.cls is None or eb.cls.name == "Opcode":
+        rep.ok("C15.text-escape", uc.qualname, "no encoder of its own: refuses to encode", "", nontrivial=False)
+        return
+
+    def call_hook(name, args, kw, ev):
+        f = repo.lookup(f"fickling.fickle.{name}") if "." not in name else None
+        if isinstance(f, FuncInfo) and f.cls is None:
+            env = dict(zip(f.params(), args))
+            if len(env) != len(f.params()):
+                raise Unsupported(f"arity of {name}")
+            return Evaluator(env, call_hook=call_hook).run_body(f.node.body)
+        if name == "ValueError" or name == "TypeError":
+            return Record(name, {})
+        return _MISSING
+
+    classes = list(TEXT_CLASSES)
+    consts = set()
+    for f in (eb, va, repo.lookup("fickling.fickle.raw_unicode_escape")):
+        if isinstance(f, FuncInfo):
+            for n in body_walk(f.node):
+                if isinstance(n, ast.Constant) and isinstance(n.value, int) and not isinstance(n.value, bool) and 0 < n.value <= 0x10FFFF:
+                    consts.add(n.value)
+    for c in sorted(consts):
+        reps = "".join(chr(x) for x in (c - 1, c, c + 1) if 0 <= x <= 0x10FFFF and not 0xD800 <= x <= 0xDFFF)
+        classes.append((f"around-constant-{c:#x}", reps))
+    bad = 0
+    for cname, text in classes:
+        try:
+            arg = Evaluator({"cls": Record("Unicode", {"__name__": "Unicode"}), "obj": text}, call_hook=call_hook).run_body(va.node.body)
+            out = Evaluator({"self": Record("Unicode", {"arg": arg})}, call_hook=call_hook).run_body(eb.node.body)
+        except PyRaise as pe:
+            rep.ok("C15.text-escape", uc.qualname, f"[{cname}] refused at build time with {pe.name}", f"{eb.file}:{eb.line}", nontrivial=False)
+            continue
+        except Unsupported as e:
+            raise AnalysisError(f"C15.text-escape: cannot interpret Unicode.validate/encode_body for class {cname}: {e}")
+        if not isinstance(out, bytes):
+            raise AnalysisError(f"C15.text-escape: Unicode.encode_body evaluated to {type(out).__name__}, not bytes")
+        why = None
+        if not out.endswith(b"\n"):
+            why = "the body does not end with the newline that terminates a UNICODE argument"
+        elif b"\n" in out[:-1]:
+            why = "the body contains a raw newline: the reader stops there and the rest is read as opcodes"
+        else:
+            try:
+                back = out[:-1].decode("raw-unicode-escape")
+            except UnicodeDecodeError as ex:
+                back = None
+                why = f"the reader cannot decode the body ({ex.reason})"
+            if back is not None and back != text:
+                why = f"the reader decodes it to {back!r}"
+        if why is None:
+            rep.ok("C15.text-escape", uc.qualname, f"[{cname}] {text!r} -> {out!r} reads back as itself", f"{eb.file}:{eb.line}")
+        else:
+            bad += 1
+            rep.bad("C15.text-escape", uc.qualname, f"mis-escapes:{cname}", f"Unicode({text!r}) encodes its argument as {out!r}: {why}. The text handed to the helper silently arrives as a different value", eb.file, eb.line)
+
+
+def check_argument_path(repo: Repo, rep: Report):
+    """Who-may-construct: library code that builds a constant opcode directly (not through ConstantOpcode.new, whose
+    winners C15.capture vets) must not pick a class whose encoder this very run found not to round-trip."""
+    defective: Dict[str, str] = {}
+    for f in rep.findings:
+        if f.rule in ("C15.wire-format", "C15.length-units", "C15.capture"):
+            defective.setdefault(f.construct.split(".")[-1] if f.construct.split(".")[-1][:1].isupper() else f.construct.split(".")[-2], f.rule)
+        if f.rule == "C15.text-escape":
+            defective.setdefault("Unicode", f.rule)
+    co = repo.cls("fickling.fickle.ConstantOpcode")
+    const = {c.name: c for c in repo.subclasses(co, strict=True)}
+    n_sites = 0
     for g in repo.functions.values():
+        if g.cls is not None and (g.cls is co or g.cls.name in const):
+            continue  # the hierarchy's own constructors (`cls(...)` in new/create)
         for n in body_walk(g.node):
-            if isinstance(n, ast.Call) and (dotted(n.func) or "").split(".")[-1] == "Unicode" and g.module.name in ("fickling.cli", "fickling.fickle") and g.cls is None or (isinstance(n, ast.Call) and (dotted(n.func) or "").endswith("Unicode.new")):
-                users.append((g, n))
-    if bytewise and esc:
-        rep.bad(
-            "C15.text-escape",
-            f.qualname,
-            "escapes-utf8-bytes",
-            f"raw_unicode_escape iterates the UTF-8 *bytes* of the text and writes each byte >= 0x80 as its own \\u00XX escape: the UNICODE reader decodes every escape as one code point, so non-ASCII text arrives as mojibake (fickle.Unicode('é'.encode()) loads as 'Ã©'); used by {sorted({g.qualname for g, _ in users}) or 'no helper'}",
-            f.file,
-            f.line,
-        )
-    else:
-        rep.ok("C15.text-escape", f.qualname, "escapes code points, not UTF-8 bytes", f"{f.file}:{f.line}")
+            if not isinstance(n, ast.Call):
+                continue
+            d = dotted(n.func) or ""
+            parts = d.split(".")
+            cname = None
+            if parts[-1] in const:
+                cname = parts[-1]
+            elif len(parts) >= 2 and parts[-1] in ("new", "create") and parts[-2] in const:
+                cname = parts[-2]
+            if cname is None:
+                continue
+            q = repo.resolve_expr(g.module, n.func if parts[-1] in const else n.func.value, set(g.params())) or ""
+            if not q.endswith(f"fickling.fickle.{cname}"):
+                continue
+            n_sites += 1
+            if cname in defective:
+                rep.bad("C15.argument-path", g.qualname, f"constructs-defective-encoder:{cname}", f"`{src(n)[:80]}` builds a {cname} opcode directly; its encoder does not round-trip ({defective[cname]} above), so the value handed in silently arrives as a different value", g.file, n.lineno)
+            else:
+                rep.ok("C15.argument-path", g.qualname, f"`{src(n)[:60]}` builds {cname} directly; its encoder has no finding", f"{g.file}:{n.lineno}")
+    rep.ok("C15.argument-path", "fickling/*", f"{n_sites} direct construction site(s) of constant opcodes outside the opcode hierarchy; all other constants go through ConstantOpcode.new", "")
 
 
 def run(rep: Report, tier: str):
@@ -537,10 +669,12 @@ def run(rep: Report, tier: str):
     rep.rule("C15.range", "admitted integer ranges fit the struct format", 4)
     rep.rule("C15.wire-format", "encoder shape agrees with the pickletools argument descriptor, or the class refuses", 55)
     rep.rule("C15.length-units", "length-prefixed constant classes bound the byte length of the encoded body in validate", 6)
-    rep.rule("C15.text-escape", "the UNICODE text encoder escapes code points (what the reader decodes), not UTF-8 bytes", 1)
+    rep.rule("C15.text-escape", "the UNICODE text encoder writes, for every character class of the raw-unicode-escape reader, bytes that read back as the text (or refuses)", 12)
+    rep.rule("C15.argument-path", "no helper constructs directly a constant opcode whose encoder does not round-trip", 2)
     rep.assume("pickletools argument descriptors and stack_after kinds are the specification of what the standard disassembler/unpickler reads")
     check_capture(repo, rep)
     check_range(repo, rep)
     check_wire(repo, rep)
     check_length_units(repo, rep)
     check_text_escape(repo, rep)
+    check_argument_path(repo, rep)
